@@ -867,14 +867,13 @@ def check_scipy_run(c, ialts, call):
             if bad and all(v in (q2f(c["bnd"][n]["lo"]), q2f(c["bnd"][n]["hi"])) for n, v in bad):
                 return None, "optimiser-on-open-bound"
             if not bad:
-                # a value ON a closed bound whose read-back (var = var_raw * var_factor) is off by rounding
+                # the model complains about an excess at rounding level (TPL: var = var_raw * var_factor is
+                # read back after another argument moved): boundary rounding, not described by the documentation
                 m = re.search(r"needs to be [<>=]+ ([-+.\deinf]+), got: ([-+.\deinf]+)", call.exc or "")
                 if m:
                     bound, got = float(m.group(1)), float(m.group(2))
-                    if abs(got - bound) <= 1e-9 * max(1.0, abs(bound)) and any(
-                            abs(v - b) <= 1e-9 * max(1.0, abs(b)) for n, v in zip(names, args)
-                            for b in (q2f(c["bnd"][n]["lo"]), q2f(c["bnd"][n]["hi"])) if not np.isinf(b)):
-                        return None, "optimiser-on-bound (read-back rounding)"
+                    if abs(got - bound) <= 1e-9 * max(1.0, abs(bound)):
+                        return None, "bound exceeded at rounding level"
             return ("error:in-box" if bad else "error:spurious"), None
         if call.exc_from == "optimiser":
             if not all(lo <= p <= hi for p, lo, hi in zip(call.p0, call.lo, call.hi)):
